@@ -134,7 +134,21 @@ fn req_run(a: &Args) -> Args {
 fn bufsize(a: &Args) -> Args {
     let cfg = config(argn(a, 0) as usize, 1);
     let mut p = request::Parser::new(&cfg);
-    vec![vec![p.input_buffer().len() as u128]]
+    let n = p.input_buffer().len();
+    // the second public constructor that allocates a buffer, stream::Parser::new, must size it the same way, and the request
+    // parser it is later converted into (connection reuse) must offer that same buffer
+    let small = config(64, 1);
+    let mut q = request::Parser::new(&small);
+    let wire = [1u8, 1, 0, 1, 0, 8, 0, 0, 0, 1, 1, 0, 0, 0, 0, 0, 1, 4, 0, 1, 0, 0, 0, 0];
+    q.input_buffer()[..wire.len()].copy_from_slice(&wire);
+    let y = q.parse(wire.len());
+    assert!(y.done, "minimal preamble");
+    let (req, _) = q.into_request().expect("request");
+    let mut sp = fastcgi_server::parser::stream::Parser::new(&cfg, req);
+    assert_eq!(sp.input_buffer().len(), n, "stream::Parser::new sizes its buffer differently from request::Parser::new");
+    let mut rp = sp.into_request_parser().expect("a fresh stream parser stands at a record boundary");
+    assert_eq!(rp.input_buffer().len(), n, "the request parser converted from stream::Parser::new has a different buffer");
+    vec![vec![n as u128]]
 }
 
 /// the key normalisation of make_cgivar, observed through the public API: a one-pair request
